@@ -144,10 +144,10 @@ Definition accept4 (s : sstate4) (o : op4) (r : out4) : sstate4 + N :=
       match rep with
       | RNone =>
           (* every binding that had run out before this tick is gone and its value is free again *)
-          let dead := filter (fun p => snd (snd p) <? snow s) (sb s) in
+          let dead := filter (fun p => snd (snd p) <=? snow s) (sb s) in
           if forallb (fun p => freed4 s (sdany s) sn (fst (snd p)) &&
                                negb (existsb (fun q => fst q =? fst p) (sn_leases sn))) dead
-          then with4 s (snow s) (filter (fun p => negb (snd (snd p) <? snow s)) (sb s)) (sdown s) (sdany s) sn
+          then with4 s (snow s) (filter (fun p => negb (snd (snd p) <=? snow s)) (sb s)) (sdown s) (sdany s) sn
           else inr 5
       | _ => inr 9
       end
